@@ -1,4 +1,5 @@
 import Passage.Driver.Common
+import Passage.NetText
 import Passage.Agones
 namespace Passage.Driver.C20
 open Passage Passage.Driver Passage.Agones
@@ -56,7 +57,12 @@ def go (parseIp : Bytes → Option Bytes) : St → List (Option Ev) → List Str
 def handle : List String → Option String
   | "c20.run" :: rest => do
     let ips := rest.filterMap fun t => if t.startsWith "ip=" then some ((t.drop 3).toString) else none
+    -- an IPv4 `status.address` is decided by the model's own parser and printer (NetText); std::net's recorded verdict is used
+    -- for everything else
     let parseIp : Bytes → Option Bytes := fun h =>
+      match NetText.parseV4 h with
+      | some x => some (NetText.showV4 x)
+      | none =>
       match ips.findSome? (fun e => match e.splitOn ":" with
         | [a, b] => if hex? a == some h then some (if b == "-" then (none : Option Bytes) else hex? b) else none
         | _ => none) with
